@@ -172,9 +172,10 @@ func (s *side) do(method, path string, cookie *string, body string) (r httpResp)
 	}
 	req = req.WithContext(ctx)
 	// every request arrives on a new TCP connection, and a client's connections do not all come from one
-	// source address (multi-homed hosts, NAT pools, proxies): the cookie alone identifies the session
+	// source address (multi-homed hosts, NAT pools, proxies), while different clients often share one (a NAT
+	// gateway): the cookie alone identifies the session
 	nr := s.nreq.Add(1)
-	req.RemoteAddr = fmt.Sprintf("%s:%d", []string{"10.0.0.9", "10.0.1.9", "192.168.7.3"}[nr%3], 50000+nr%10000)
+	req.RemoteAddr = fmt.Sprintf("%s:%d", []string{"10.0.0.9", "10.0.0.9", "10.0.1.9", "10.0.0.9", "192.168.7.3"}[nr%5], 50000+nr%10000)
 	if cookie != nil {
 		req.Header.Set("Cookie", cookieName+"="+*cookie)
 	}
